@@ -22,6 +22,12 @@ SchemaA == [dynamic |-> TRUE] @@ SchemaF(<<
     <<"l", With(ListF(With(IntF, [hasmin |-> TRUE, min |-> 0])), [default |-> ListV(<<IntV(1)>>)])>>,
     <<"d", With(DictF(With(StringF, [tcase |-> "upper"]), IntF), [default |-> DictV(<<>>)])>>,
     <<"l2", With(ListF(IntF), [default |-> ListV(<<IntV(-5)>>)])>>,
+    <<"va", AliasF("a")>>,
+    <<"vm", MethodF("a")>>,
+    <<"mode", With(StringF, [tcase |-> "lower", stripm |-> "ws", choices |-> << <<"d","e","v">>, <<"p","r","o","d">> >>,
+                             default |-> s(<<"d","e","v">>)]) @@ [appmode |-> TRUE]>>,
+    <<"is_dev_mode", ModeIsF("mode", <<"d","e","v">>)>>,
+    <<"is_prod_mode", ModeIsF("mode", <<"p","r","o","d">>)>>,
     <<"raw", With(DictF(NoF, NoF), [default |-> DictV(<<>>)])>>,
     <<"sub", SubS>>,
     <<"items", ListF(ItemS)>>,
@@ -29,14 +35,16 @@ SchemaA == [dynamic |-> TRUE] @@ SchemaF(<<
     <<"ct", CtS>>,
     <<"citems", With(ListF(ItemC), [default |-> ListV(<<D1(<<"w">>, IntV(1)), D1(<<"w">>, IntV(1))>>)])>> >>)
 
-MCKeyNames == {"ip", "net", "hostn", "url", "ratio", "flag", "blob", "port", "lvl", "lst", "dct", "nest", "addr", "cnt", "raw", "name", "port", "tags", "opts", "feat", "enabled", "key", "core", "srv", "host", "ct", "citems", "u", "m", "w", "l2", "ditems", "a", "s", "l", "d", "sub", "x", "y", "deep", "z", "items", "p", "q", "zz"}
+MCKeyNames == {"va", "vm", "mode", "is_dev_mode", "is_prod_mode", "ip", "net", "hostn", "url", "ratio", "flag", "blob", "port", "lvl", "lst", "dct", "nest", "addr", "cnt", "raw", "name", "port", "tags", "opts", "feat", "enabled", "key", "core", "srv", "host", "ct", "citems", "u", "m", "w", "l2", "ditems", "a", "s", "l", "d", "sub", "x", "y", "deep", "z", "items", "p", "q", "zz"}
 MCKeyChars == [k \in MCKeyNames |->
     CASE k = "a" -> <<"a">> [] k = "s" -> <<"s">> [] k = "l" -> <<"l">> [] k = "d" -> <<"d">>
       [] k = "sub" -> <<"s","u","b">> [] k = "x" -> <<"x">> [] k = "y" -> <<"y">>
       [] k = "deep" -> <<"d","e","e","p">> [] k = "z" -> <<"z">> [] k = "items" -> <<"i","t","e","m","s">>
       [] k = "name" -> <<"n", "a", "m", "e">> [] k = "port" -> <<"p", "o", "r", "t">> [] k = "tags" -> <<"t", "a", "g", "s">> [] k = "opts" -> <<"o", "p", "t", "s">> [] k = "feat" -> <<"f", "e", "a", "t">>
       [] k = "enabled" -> <<"e", "n", "a", "b", "l", "e", "d">> [] k = "key" -> <<"k", "e", "y">> [] k = "core" -> <<"c", "o", "r", "e">> [] k = "srv" -> <<"s", "r", "v">> [] k = "host" -> <<"h", "o", "s", "t">>
-      [] k = "raw" -> <<"r","a","w">>
+      [] k = "raw" -> <<"r","a","w">> [] k = "va" -> <<"v","a">> [] k = "vm" -> <<"v","m">> [] k = "mode" -> <<"m","o","d","e">>
+      [] k = "is_dev_mode" -> <<"i","s","_","d","e","v","_","m","o","d","e">>
+      [] k = "is_prod_mode" -> <<"i","s","_","p","r","o","d","_","m","o","d","e">>
       [] k = "ip" -> <<"i", "p">> [] k = "net" -> <<"n", "e", "t">> [] k = "hostn" -> <<"h", "o", "s", "t", "n">> [] k = "url" -> <<"u", "r", "l">> [] k = "ratio" -> <<"r", "a", "t", "i", "o">> [] k = "flag" -> <<"f", "l", "a", "g">> [] k = "blob" -> <<"b", "l", "o", "b">> [] k = "port" -> <<"p", "o", "r", "t">> [] k = "lvl" -> <<"l", "v", "l">> [] k = "lst" -> <<"l", "s", "t">> [] k = "dct" -> <<"d", "c", "t">> [] k = "nest" -> <<"n", "e", "s", "t">> [] k = "addr" -> <<"a", "d", "d", "r">> [] k = "cnt" -> <<"c", "n", "t">>
       [] k = "ct" -> <<"c","t">> [] k = "citems" -> <<"c","i","t","e","m","s">> [] k = "u" -> <<"u">>
       [] k = "m" -> <<"m">> [] k = "w" -> <<"w">>
@@ -47,8 +55,12 @@ MCEnviron == [n \in {} |-> <<>>]
 SubDefault == DefaultCfg(Bind(SubS, PNone), <<"sub">>).cfg
 MCSetCands ==
     [pk \in {<< <<>>, "a">>, << <<>>, "s">>, << <<>>, "l">>, << <<>>, "d">>, << <<>>, "sub">>, << <<>>, "items">>,
-             << <<>>, "zz">>, << <<>>, "ct">>, << <<"ct">>, "u">>, << <<"ct">>, "m">>, << <<"sub">>, "x">>, << <<"sub">>, "y">>, << <<"sub">>, "deep">>, << <<"sub", "deep">>, "z">>} |->
+             << <<>>, "zz">>, << <<>>, "va">>, << <<>>, "vm">>, << <<>>, "mode">>, << <<>>, "is_dev_mode">>, << <<>>, "ct">>, << <<"ct">>, "u">>, << <<"ct">>, "m">>, << <<"sub">>, "x">>, << <<"sub">>, "y">>, << <<"sub">>, "deep">>, << <<"sub", "deep">>, "z">>} |->
         CASE pk = << <<>>, "a">> -> {IntV(3), IntV(11), s(<<"7">>), NoneV, s(<<"x">>), FSpec("inf")}
+          [] pk = << <<>>, "va">> -> {IntV(4), IntV(99)}
+          [] pk = << <<>>, "vm">> -> {IntV(1)}
+          [] pk = << <<>>, "mode">> -> {s(<<" ","P","r","o","d">>), s(<<"q","a">>)}
+          [] pk = << <<>>, "is_dev_mode">> -> {BoolV(TRUE)}
           [] pk = << <<>>, "ct">> -> {D1(<<"u">>, IntV(4)), D1(<<"u">>, s(<<"b">>)), D1(<<"m">>, D1(<<"k">>, s(<<"x">>)))}
           [] pk = << <<"ct">>, "u">> -> {IntV(2), s(<<"b">>)}
           [] pk = << <<"ct">>, "m">> -> {D1(<<"k">>, IntV(1)), D1(<<"k">>, s(<<"x">>))}
